@@ -9,6 +9,7 @@ touched by the operation with its S0 or its completed value (or absence), every 
 unchanged, and no key that was never stored.
 """
 import json
+import random
 import os
 import shutil
 import signal
@@ -331,7 +332,11 @@ def gen_case(rng, prop='C13'):
         else:
             continue
         break
-    return {'backend': b, 's0': s0, 'op': op, 'history': rng.choice([0, 0, 1, 2]), 'seed': rng.randrange(1 << 30)}
+    case = {'backend': b, 's0': s0, 'op': op, 'history': rng.choice([0, 0, 1, 2]), 'seed': rng.randrange(1 << 30)}
+    # crash - restart - crash histories: a quarter of the triples continue from two of their crash states
+    if op[0] != 'open' and rng.random() < 0.25:
+        case['second'] = 3
+    return case
 
 
 def as_map(report_items):
@@ -439,9 +444,9 @@ def run_case(case, prop='C13'):
     viol, cnt = [], {}
 
     def note(c, n=1):
-        cnt[c] = cnt.get(c, 0) + n
+        cnt[c] = cnt.get(c, [] if isinstance(n, list) else 0) + n
     b = case['backend']
-    src = not b.get('serialized', True)
+    info = {}
     with Scratch('cr') as sc:
         s0 = os.path.join(sc, 's0')
         os.makedirs(s0)
@@ -449,18 +454,116 @@ def run_case(case, prop='C13'):
                              'history': case.get('history', 0)}, sc, 'build')
         if rc != 0:
             return [{'property': 'C13', 'kind': 'harness-build-failed', 'msg': out, 'mech': [], 'case': case}], cnt, {}
+        v, info, states = sweep(case, s0, sc, '', note)
+        viol.extend(v)
+        if case.get('second') and states:
+            second_crash(case, states, sc, note, viol)
+    return viol, cnt, info
+
+
+def second_op(rng, visible, first):
+    """the operation a restarted program might do next, preferring the keys the interrupted one was working on"""
+    # (keys travel as the JSON text of their encoded form, as in the reports)
+    tk = touched_keys(first) or []
+    vis = list(visible)
+    hot = [json.loads(k) for k in ([k for k in tk if k in vis] or vis)]
+    cold = [json.loads(k) for k in ([k for k in tk if k not in vis] or ['"k9"'])]
+    vis = [json.loads(k) for k in vis]
+    newv = lambda: rng.choice([rng.randrange(3000, 4000), 'again%d' % rng.randrange(100), 'B' * 9000 + 'M'])
+    while True:
+        kd = rng.choice(['set-over', 'set-over', 'set-new', 'del', 'pop', 'clear', 'update', 'dump', 'popkeys', 'redo'])
+        if kd == 'redo' and first[0] in ('set', 'update', 'dump', 'clear', 'setdefault'):
+            return json.loads(json.dumps(first))        # simply do the interrupted thing again
+        if kd == 'set-over' and hot:
+            return ['set', rng.choice(hot), newv()]
+        if kd == 'set-new':
+            return ['set', rng.choice(cold), newv()]
+        if kd == 'del' and hot:
+            return ['del', rng.choice(hot)]
+        if kd == 'pop' and hot:
+            return ['pop', rng.choice(hot)]
+        if kd == 'clear' and vis:
+            return ['clear']
+        if kd == 'update':
+            return ['update', [[k, newv()] for k in (hot[:1] + cold[:1])]]
+        if kd == 'dump':
+            return ['dump', [[k, newv()] for k in (hot[:1] + cold[:1])]]
+        if kd == 'popkeys' and len(vis) >= 2:
+            return ['popkeys', (hot[:1] + [k for k in vis if k not in hot[:1]])[:2]]
+
+
+def second_crash(case, states, sc, note, viol):
+    """crash - restart - crash: a program that was killed is restarted, works on the same archive, and is killed
+    again.  Each chosen crash state of the first operation (already judged readable) becomes the prior state of a
+    second operation whose every kill point is swept and judged against what the restarted program could see."""
+    rng = random.Random(case['seed'])
+    good = [(name, pdir, rep) for name, pdir, rep in states
+            if not any(k.endswith('_error') for k in rep) and 'open_error' not in rep and 'asdict' in rep]
+    rng.shuffle(good)
+    for n, (name, pdir, rep) in enumerate(good[:int(case['second'])]):
+        mid = None
+        if rng.random() < 0.6:
+            # the restarted program first completes one operation (typically putting back what the killed one was
+            # removing or replacing), then is killed in the next
+            tk = touched_keys(case['op']) or []
+            seen = [k for k, _ in rep['asdict']]
+            gone = [k for k in tk if k not in seen]
+            if gone and rng.random() < 0.7:
+                mid = ['set', json.loads(rng.choice(gone)), 'back%d' % rng.randrange(100)]
+            else:
+                mid = second_op(rng, seen, case['op'])
+            mdir = os.path.join(sc, 'm%d' % n)
+            shutil.copytree(pdir, mdir, symlinks=True)
+            rc, out = run_child({'job': 'op', 'backend': case['backend'], 'root': mdir, 'op': mid, 'arm': 'arm/0',
+                                 'done': mdir + '.done'}, sc, 'm%d' % n)
+            outp = mdir + '.read.json'
+            rc2, out2 = run_child({'job': 'read', 'backend': case['backend'], 'roots': [['m', mdir]], 'out': outp}, sc, 'mr%d' % n)
+            if rc != 0 or not os.path.exists(mdir + '.done') or rc2 != 0 or not os.path.exists(outp):
+                viol.append({'property': 'C13', 'kind': 'operation-failed-after-restart', 'mech': [], 'case': case,
+                             'msg': 'after a kill (%s, at %s) a restarted process could not complete %s: %s'
+                                    % (json.dumps(case['op'])[:80], name, json.dumps(mid)[:80], (out + out2)[-300:])})
+                continue
+            with open(outp) as f:
+                rep = json.load(f)['m']
+            if any(k.endswith('_error') for k in rep) or 'open_error' in rep or 'asdict' not in rep:
+                viol.append({'property': 'C13', 'kind': 'unreadable-after-restart', 'mech': [], 'case': case,
+                             'msg': 'after a kill (%s, at %s) and a completed %s the archive reads: %r'
+                                    % (json.dumps(case['op'])[:80], name, json.dumps(mid)[:80], rep)})
+                continue
+            note('c13_second_histories_with_completed_operation_between')
+            pdir = mdir
+        op2 = second_op(rng, [k for k, _ in rep['asdict']], case['op'])
+        case2 = dict(case, op=op2, second_after={'first_op': case['op'], 'killed_at': name, 'then_completed': mid})
+        note('c13_second_crash_sweeps')
+        v, info, st2 = sweep(case2, pdir, sc, 'x%d_' % n, note, second=True)
+        for x in v:
+            x['case'] = case          # (replay re-derives the second operations from the seed)
+            x['msg'] = ('after an earlier kill (%s, at %s)%s and a restart: ' % (json.dumps(case['op'])[:60], name, ', a completed %s' % json.dumps(mid)[:50] if mid else '') + x['msg'])[:800]
+        viol.extend(v)
+        if info.get('exhaustive_for_this_triple'):
+            note('c13_second_crash_sweeps_complete')
+
+
+def sweep(case, s0, sc, tag, note, second=False):
+    """every crash point of case['op'] applied to the archive state in directory s0
+    -> (violations, info, [(arm name, crash-state directory, fresh-process report)])"""
+    viol = []
+    b = case['backend']
+    src = not b.get('serialized', True)
+    pre = 'c13_second_' if second else 'c13_'
+    if True:
         # dry run: event list and completed state
-        dry = os.path.join(sc, 'dry')
+        dry = os.path.join(sc, tag + 'dry')
         shutil.copytree(s0, dry, symlinks=True)
-        log = os.path.join(sc, 'dry.log')
+        log = os.path.join(sc, tag + 'dry.log')
         env = {'LD_PRELOAD': SHIM, 'FSSHIM_ROOT': dry, 'FSSHIM_LOG': log}
         rc, out = run_child({'job': 'op', 'backend': b, 'root': dry, 'op': case['op'], 'arm': 'arm/0',
-                             'done': os.path.join(sc, 'dry.done')}, sc, 'dry', env)
-        if rc != 0 or not os.path.exists(os.path.join(sc, 'dry.done')):
-            return [{'property': 'C13', 'kind': 'operation-failed-without-fault', 'msg': out, 'mech': [], 'case': case}], cnt, {}
+                             'done': os.path.join(sc, tag + 'dry.done')}, sc, tag + 'dry', env)
+        if rc != 0 or not os.path.exists(os.path.join(sc, tag + 'dry.done')):
+            return [{'property': 'C13', 'kind': 'operation-failed-without-fault', 'msg': out, 'mech': [], 'case': case}], {}, []
         events = [e for e in parse_log(log) if e['mut']]
         kinds = [e['op'] for e in events]
-        if case.get('audit'):
+        if case.get('audit') and not second:
             ok, detail = shim_audit(case, sc, s0)
             if ok is None:
                 note('c13_audit_unavailable')
@@ -469,37 +572,37 @@ def run_case(case, prop='C13'):
                 note('c13_audit_events_compared', detail)
             else:
                 note('c13_audit_mismatch')
-                cnt.setdefault('_audit_notes', []).append('%s %s: %s' % (backend_name(b), case['op'][0], detail))
-        note('c13_triples')
-        note('c13_events_in_dry_runs', len(events))
+                note('_audit_notes', ['%s %s: %s' % (backend_name(b), case['op'][0], detail)])
+        note(pre + 'triples')
+        note(pre + 'events_in_dry_runs', len(events))
         points = []
         for i, e in enumerate(events, 1):
             points.append(('arm/%d' % i, i, e['op']))
             if e['op'] in ('write', 'pwrite'):
                 points.append(('armhalf/%d' % i, i, e['op'] + '-half'))
-        roots = [['s0', os.path.join(sc, 's0copy')], ['s1', dry]]
+        roots = [['s0', os.path.join(sc, tag + 's0copy')], ['s1', dry]]
         shutil.copytree(s0, roots[0][1], symlinks=True)
         fired = {}
         logs = {}
         for armname, i, what in points:
-            pdir = os.path.join(sc, 'p_' + armname.replace('/', '_'))
+            pdir = os.path.join(sc, tag + 'p_' + armname.replace('/', '_'))
             shutil.copytree(s0, pdir, symlinks=True)
             plog = pdir + '.log'
             env = {'LD_PRELOAD': SHIM, 'FSSHIM_ROOT': pdir, 'FSSHIM_LOG': plog}
             done = pdir + '.done'
             rc, out = run_child({'job': 'op', 'backend': b, 'root': pdir, 'op': case['op'], 'arm': armname,
-                                 'done': done}, sc, 'p_' + armname.replace('/', '_'), env)
-            note('c13_crash_points')
+                                 'done': done}, sc, tag + 'p_' + armname.replace('/', '_'), env)
+            note(pre + 'crash_points')
             ev = parse_log(plog)
             last = ev[-1] if ev else {'op': '?', 'detail': ''}
             if rc != -signal.SIGKILL:
-                note('c13_kill_did_not_fire')
+                note(pre + 'kill_did_not_fire')
                 fired[armname] = None
                 continue
             # the killed run must have followed the dry run's event kinds up to the kill point
             pk = [e['op'] for e in ev if e['mut']][: i - 1]
             if pk != kinds[: i - 1]:
-                note('c13_event_prefix_mismatch')
+                note(pre + 'event_prefix_mismatch')
             fired[armname] = last['op'] + ' ' + last['detail'].replace(pdir, '<root>')[:120]
             logs[armname] = [(e['op'], e['detail']) for e in ev if e['mut']]
             roots.append([armname, pdir])
@@ -507,8 +610,8 @@ def run_case(case, prop='C13'):
         reports = {}
         batches = [[r] for r in roots] if src else [roots]
         for bi, batch in enumerate(batches):
-            outp = os.path.join(sc, 'read%d.out.json' % bi)
-            rc, out = run_child({'job': 'read', 'backend': b, 'roots': batch, 'out': outp}, sc, 'read%d' % bi, timeout=180)
+            outp = os.path.join(sc, tag + 'read%d.out.json' % bi)
+            rc, out = run_child({'job': 'read', 'backend': b, 'roots': batch, 'out': outp}, sc, tag + 'read%d' % bi, timeout=180)
             if rc != 0 or not os.path.exists(outp):
                 for name, _ in batch:
                     reports[name] = {'open_error': 'reader process failed: ' + out[-200:]}
@@ -521,17 +624,18 @@ def run_case(case, prop='C13'):
             if any(k.endswith('_error') for k in reports[name]):
                 viol.append({'property': 'C13', 'kind': 'no-fault-state-unreadable', 'mech': [], 'case': case,
                              'msg': '%s: %r' % (name, reports[name])})
-                return viol, cnt, {}
+                return viol, {}, []
         for armname, i, what in points:
             if fired.get(armname) is None:
                 continue
-            note('c13_crash_states_judged')
-            note('c13_kill_before_' + what.split('-')[0])
+            note(pre + 'crash_states_judged')
+            note(pre + 'kill_before_' + what.split('-')[0])
             viol.extend(judge(case, s0_rep, s1_rep, reports[armname], armname, fired[armname], logs.get(armname, ())))
         info = {'events': kinds, 'points': len(points), 'exhaustive_for_this_triple': all(v is not None for v in fired.values())}
         if info['exhaustive_for_this_triple']:
-            note('c13_triples_fully_swept')
-    return viol, cnt, info
+            note(pre + 'triples_fully_swept')
+        states = [(name, path, reports[name]) for name, path in roots[2:] if name in reports]
+    return viol, info, states
 
 
 RULE = ('(configuration, prior state, operation) triple whose every mutating file-system event (and every '
